@@ -6,6 +6,8 @@ void GMGPolar::setup()
     auto start_setup = std::chrono::high_resolution_clock::now();
 
     resetTimings();
+    VERIF_EV("SetupBegin", "\"ext\":%d,\"fmg\":%d,\"take\":%d", (int)extrapolation_, (int)FMG_,
+             (int)(stencil_distribution_method_ == StencilDistributionMethod::CPU_TAKE));
 
     auto start_setup_createLevels = std::chrono::high_resolution_clock::now();
 
@@ -179,6 +181,16 @@ void GMGPolar::setup()
         }
     }
 
+#ifdef GMGPOLAR_VERIF
+    for (int d = 0; d < number_of_levels_; d++) {
+        VERIF_EV("SetupLevel", "\"d\":%d,\"nr\":%d,\"nt\":%d,\"sol\":%d,\"rhs\":%d,\"res\":%d,\"err\":%d,\"threads\":%d", d,
+                 levels_[d].grid().nr(), levels_[d].grid().ntheta(), levels_[d].solution().size(),
+                 levels_[d].rhs().size(), levels_[d].residual().size(), levels_[d].error_correction().size(),
+                 threads_per_level_[d]);
+    }
+#endif
+    VERIF_EV("SetupBuilt", "\"L\":%d,\"fgs\":%d,\"ext\":%d,\"fmg\":%d", number_of_levels_, (int)full_grid_smoothing_,
+             (int)extrapolation_, (int)FMG_);
     auto end_setup = std::chrono::high_resolution_clock::now();
     t_setup_total += std::chrono::duration<double>(end_setup - start_setup).count();
     LIKWID_STOP("Setup");
